@@ -119,7 +119,12 @@ func (evt *catchEvent) NextAction(ctx context.Context, flow Flow) chan IAction {
 	// (an alternative withdrawn by an event-based gateway); the node must not
 	// block on it, or its inbox fills up and event delivery blocks
 	response := make(chan IAction, 1)
-	evt.mch <- nextActionMessage{response: response, flow: flow}
+	// the run loop exits when ctx is done: a flow arriving then must not wait
+	// for room in an inbox nobody drains any more
+	select {
+	case evt.mch <- nextActionMessage{response: response, flow: flow}:
+	case <-ctx.Done():
+	}
 	return response
 }
 
